@@ -1,5 +1,6 @@
 """C03  HTML minification preserves the parsed document.
 
+
 MC : HtmlMachine = generator of conforming token sequences (content models of the standard)
      + transcription of the token loop of html/html.go + tree construction of the standard for
      the vocabulary.  TLC checks exhaustively within the bound that a conforming explicit document
@@ -110,7 +111,8 @@ def gen_lines(out):
 def tree_docs(ctx):
     """(MC)+(GEN): exhaustive runs of HtmlMachine; returns list of (src bytes, frag, {optproj: predicted bytes})"""
     quick = ctx.quick()
-    runs = [('quick', False), ('docquick', True)] if quick else [('wide', False), ('deep', False), ('doc', True)]
+    runs = [('quick', False), ('tablequick', False), ('docquick', True)] if quick else \
+           [('wide', False), ('list', False), ('select', False), ('inline', False), ('table', False), ('doc', True)]
     docs = []
     per = {}
     for name, docmode in runs:
@@ -159,7 +161,7 @@ def tree_cases(ctx, docs):
         seen.add(k)
         cases.append(mk(src, opts, frag, 0, origin, pred.get(opts & (KET | KWS | KDOC)) if opts & 3 == 0 else None))
 
-    budget = dict(deep=40000, sim=30000)
+    budget = dict(list=25000, select=25000, inline=25000, table=25000, doc=30000, sim=30000)
     count = {}
     for d in docs:
         count[d[3]] = count.get(d[3], 0) + 1
@@ -177,7 +179,7 @@ def tree_cases(ctx, docs):
                 add(src, 0, False, 'gen:' + name + ':asdoc', pred)
         else:
             add(src, o2, frag, 'gen:' + name, pred)
-            if name in ('wide', 'doc'):
+            if name == 'wide':
                 add(src, o3, frag, 'gen:' + name, pred)
             if frag and name == 'wide':
                 add(src, PAIRWISE8[i % 8], False, 'gen:' + name + ':asdoc', pred)
@@ -250,7 +252,7 @@ def attr_values(ctx):
     vals = [bytes(json.loads(m.group(1))) for m in VAL_RE.finditer(r['out'])]
     if len(vals) != r['distinct']:
         raise vlib.Infra('HtmlAttr: %d values printed for %d states' % (len(vals), r['distinct']))
-    rs = vlib.tlc(ctx, 'HtmlAttr', 'HtmlAttr_sim.cfg', workers=1, simulate='num=%d' % (40 if quick else 800), depth=5,
+    rs = vlib.tlc(ctx, 'HtmlAttr', 'HtmlAttr_sim.cfg', workers=1, simulate='num=%d' % (40 if quick else 200), depth=5,
                   seed=ctx.seed, timeout=1200)
     if rs['errors'] or rs['invariant_violations']:
         raise vlib.Infra('attribute design model fails on a simulated walk:\n' + rs['out'][-3000:])
@@ -288,7 +290,7 @@ def attr_cases(ctx, vals):
             docs.append(b'<p>' + v + b'</p>')
         docs.append(b'<textarea>' + v + b'</textarea>')
         for j, d in enumerate(docs):
-            for o in ([optsets[(i + j) % 2]] if ctx.quick() or j % 2 else optsets):
+            for o in ([optsets[(i + j) % 2]] if ctx.quick() or j % 3 else optsets):
                 out.append(mk(d, o, True, 0, origin='attr'))
         if b'<' not in v:
             out.append(mk(DOCTYPE + b'<title>' + v + b'</title>', 0, False, 0, origin='attr'))
@@ -489,7 +491,7 @@ def run(ctx):
     bad1 = set(i for i, _ in rejects)
     outs = sorted(set((side[i], cases[i]['frag']) for i in range(n_tree)
                       if i not in bad1 and cases[i]['opts'] == 0 and side[i].encode() != bytes(cases[i]['src'])))
-    outs = vlib.sample(outs, 6000 if ctx.quick() else 60000, ctx.rnd)
+    outs = vlib.sample(outs, 5000 if ctx.quick() else 30000, ctx.rnd)
     pass2 = []
     for j, (m, frag) in enumerate(outs):
         pass2.append(mk(m, 0, frag, 0, origin='gen:pass2'))
@@ -554,8 +556,11 @@ def run(ctx):
         documents_from_model=n_tree,
         attribute_documents_from_model=n_attr,
         repo_test_inputs_outside_domain=len(skipped),
-        rule='documents = every complete state of the TLC runs of HtmlMachine (all conforming token sequences within '
-             'the node/depth bound over the vocabulary, see coverage.generator), complete states met on TLC -simulate '
+        rule='documents = complete states of the exhaustive TLC runs of HtmlMachine (all conforming token sequences within '
+             'the node/depth bound over the vocabulary, see coverage.generator; every complete state for the quick/wide/'
+             'tablequick/docquick configurations, a checksum-selected quarter - then capped at 25-30k per configuration - for '
+             'the list/select/inline/table/doc configurations, whose design-level check is still exhaustive), the real outputs '
+             'of those documents fed back as second-pass inputs (tags omitted), complete states met on TLC -simulate '
              'walks, all inputs of html/html_test.go, template-delimiter documents; each crossed with Keep* option sets '
              '(8 pairwise-covering sets; all 128 for the test inputs in thorough) and read as fragment (body context) '
              'and as document; a case is (input bytes, options, fragment?, delimiters); non-trivial = the real minifier '
@@ -568,7 +573,9 @@ def run(ctx):
         samples=samples,
         exhaustive=True,
         exhaustive_bound='all conforming token sequences with <= %s nodes over the vocabulary of HtmlMachine_%s.cfg' %
-                         (('3', 'quick/docquick') if ctx.quick() else ('3 (33 tags) / 4 (20 tags)', 'wide/deep/doc')),
+                         (('3 (23 tags) / 4 (table vocabulary)', 'quick/tablequick/docquick') if ctx.quick() else
+                          ('3 (33 tags) / 4 (list, select, inline, document vocabularies) / 5 (table vocabulary)',
+                           'wide/list/select/inline/table/doc')),
     ))
     ctx.assumptions += [
         'golang.org/x/net/html v0.34.0 (scripting disabled) is the HTML5 tree builder that defines "the parsed document"',
